@@ -505,6 +505,16 @@ def run(chk):
                 r5.undecided("%s:ignore_exc-forwarded" % cname, "the per-server clients are constructed with a `**mapping` whose content the analysis lost")
                 continue
             r5.expect(v is None or v == Const(False), "%s: per-server clients are created with ignore_exc off" % cname, "%s:ignore_exc-forwarded" % cname, "%s constructs its per-server clients with ignore_exc=%s: their reads then swallow connection errors themselves, the failover logic never sees a failure, and a dead server is contacted by every call (no marking, no back-off, no eviction, no rerouting)" % (cname, "its own `ignore_exc` option" if isinstance(v, pooled_an.P) else v), fn=hinit, node=hinit.node)
+    # ------------------------------------------------------------------ R7 histories
+    r7 = chk.rule("C13.R7", "histories: HashClient interpreted on a concrete two-server cluster under every sequence of operations, clock steps (below retry_timeout, between, above dead_timeout) and failures / recoveries up to depth 7, for retry_attempts 0..2, ignore_exc on/off, socket and non-socket errors: bounded probing, no eviction by one failure, rerouting, no bypass of healthy servers, only the server's own error escapes, placement restored after recovery")
+    from . import failhist
+
+    inc = getattr(chk, "included_for", None)
+    if inc is not None and "C13.R7" not in inc:
+        r7.note("not run inside another property's check (C13.R1-R6 are what is included there)")
+        r7.ok("skipped in an included run")
+    else:
+        failhist.failover_histories(prog, r7, chk.tier)
     chk.assume("retry_timeout < dead_timeout, as in the property")
     chk.assume("time.time() is monotone between the calls of one operation")
 
